@@ -1,5 +1,7 @@
 #!/bin/sh
-# build_model.sh [make-target...] — (re)generate tables, build Coq (full .vo build), extract, compile the OCaml driver.
+# build_model.sh [make-target...] — (re)generate tables, build Coq (full .vo build), extract, compile the OCaml drivers.
+# Extraction files: coq/theories/Extract/Extract.v -> sjmodel.ml (driver ocaml/driver.ml -> ocaml/sjdriver)
+#                   coq/theories/Extract/Extract_<name>.v -> sjmodel_<name>.ml (driver ocaml/driver_<name>.ml -> ocaml/sjdriver_<name>)
 set -e
 cd "$(dirname "$0")/.."
 python3 tools/translate.py
@@ -14,11 +16,24 @@ else
 fi
 test -f theories/Extract/Extract.vo || { echo "BUILD-FAILED extraction"; exit 1; }
 mkdir -p ../ocaml/gen
-if [ ! -f ../ocaml/gen/sjmodel.ml ] || [ sjmodel.ml -nt ../ocaml/gen/sjmodel.ml ] ; then
-  if [ -f sjmodel.ml ]; then mv sjmodel.ml sjmodel.mli ../ocaml/gen/; fi
-fi
+for f in sjmodel*.ml; do
+  [ -f "$f" ] || continue
+  base="${f%.ml}"
+  if [ ! -f "../ocaml/gen/$f" ] || ! cmp -s "$f" "../ocaml/gen/$f"; then
+    cp "$f" "../ocaml/gen/$f"; cp "$base.mli" "../ocaml/gen/$base.mli"
+  fi
+  rm -f "$f" "$base.mli"
+done
 cd ../ocaml
-if [ ! -x sjdriver ] || [ gen/sjmodel.ml -nt sjdriver ] || [ driver.ml -nt sjdriver ]; then
-  (cd gen && ocamlfind ocamlopt -O2 -w -a -I . sjmodel.mli sjmodel.ml ../driver.ml -o ../sjdriver.tmp 2>&1 | tail -5) && mv sjdriver.tmp sjdriver
-fi
+for m in gen/sjmodel*.ml; do
+  base="$(basename "$m" .ml)"            # sjmodel or sjmodel_<name>
+  suffix="${base#sjmodel}"               # "" or _<name>
+  drv="driver$suffix.ml"; exe="sjdriver$suffix"
+  [ -f "$drv" ] || continue
+  if [ ! -x "$exe" ] || [ "$m" -nt "$exe" ] || [ "$drv" -nt "$exe" ]; then
+    rm -rf "gen/build$suffix"; mkdir -p "gen/build$suffix"
+    cp "gen/$base.ml" "gen/$base.mli" "$drv" "gen/build$suffix/"
+    (cd "gen/build$suffix" && ocamlfind ocamlopt -O2 -w -a -I . "$base.mli" "$base.ml" "$drv" -o "../../$exe.tmp" 2>&1 | tail -5) && mv "$exe.tmp" "$exe"
+  fi
+done
 echo MODEL-OK
